@@ -291,6 +291,9 @@ Lemma quiet_send_headers sid hs L es pw pd pe : quiet (api_send_headers sid hs L
 Proof.
   unfold api_send_headers. apply quiet_bind_r; [keep_leaf|intros c0].
   apply quiet_bind_r; [|intros _].
+  { destruct (client c0); [split; [apply pres_ret|pgo]|]. split; [|pgo].
+    apply pres_bind; [apply fp_get_stream_by_id|intros ?; apply pres_ret]. }
+  apply quiet_bind_r; [|intros _].
   { destruct (dmem sid (c_streams c0)); [split; [apply pres_ret|pgo]|].
     split; [|pgo].
     apply pres_bind; [apply fp_open_outbound; ow|intros n]. apply pres_bind; [apply pres_get|intros c1].
